@@ -247,3 +247,11 @@ class DC2:
   a: object = 'da'
   b: object = dataclasses.field(default_factory=lambda: ['fb'])
   c: object = None
+
+
+def falsy(x=0, y=''):
+  return vfx.rec('falsy', locals())
+
+
+def falsy2(x=None, y=False):
+  return vfx.rec('falsy2', locals())
